@@ -5,6 +5,7 @@ import common
 import engine_corr
 import oracles
 import suites
+from suites import backtest_suite
 
 
 def sizes(tier, quick, thorough):
@@ -150,3 +151,72 @@ def run_c12(run, scratch, seed, tier):
 
 
 PROPS["C12"] = {"props_file": "C12.v", "run": run_c12}
+
+
+# ---------------------------------------------------------------- C13
+def c13_expected(case):
+    """the property statement for a flat stack of scripted test doubles: (log, results) over the runs"""
+    log, results = [], []
+    calls = {}
+
+    def call(m):
+        k = calls.get(m[1], 0)
+        calls[m[1]] = k + 1
+        return bool(m[2][k]) if k < len(m[2]) else True
+    for r in range(case["n"]):
+        res = True
+        marked = any(a[0] == "always" for a in case["algos"])
+        for a in case["algos"]:
+            ra = None
+            m = a
+            if a[0] == "always":
+                ra, m = bool(a[1]), a[2]
+            if m[0] != "mock":
+                return None
+            if res:
+                log.append(m[1])
+                res = call(m)
+            elif ra:
+                log.append(m[1])
+                call(m)
+        results.append(res)
+    return ["log", ",".join(str(x) for x in log), "res", ",".join("T" if b else "F" for b in results)]
+
+
+def run_c13(run, scratch, seed, tier):
+    import random
+    import sched_suite as S
+    rng = random.Random(seed)
+    flat = S.stack_cases(4 if tier == "quick" else 5)
+    nested = S.nested_stack_cases(rng, 1500 if tier == "quick" else 20000)
+    res = S.run_stack(scratch, flat + nested)
+    bad = [(c, i, m) for c, i, m in res if i != m]
+    ofail = []
+    for c, i, m in res[:len(flat)]:
+        exp = c13_expected(c)
+        if exp is not None and exp != i:
+            ofail.append((c, i, exp))
+    st = {"evaluations": len(res), "distinct_nontrivial": len({json.dumps(c["algos"]) for c, i, m in res if len(c["algos"]) >= 2}),
+          "traces_validated_against_impl": len(res) - len(bad), "disagreements": len(bad), "oracle_failures": len(ofail),
+          "exhaustive": True,
+          "rule": "all stacks of length <= 4 (thorough 5) over {True,False} x {plain, run_always=True, run_always=False}, "
+                  "two runs each with flipped results (exhaustive), plus random nested stacks / Or / Not of depth <= 2; "
+                  "compared: order of invocations and the stack's result per run; non-trivial = at least 2 algos",
+          "samples": [flat[40], nested[0]]}
+    run.add_suite("stack_truth_tables", st)
+    run.cov["rule"] = st["rule"]
+    if bad:
+        c, i, m = bad[0]
+        run.violation({"suite": "stack_truth_tables", "case": c, "impl": i, "model": m, "expected_by_property": c13_expected(c),
+                       "n_disagreeing": len(bad), "broken": "correspondence Algos.stack_go/or_go/strat_run vs bt/core.py AlgoStack, Strategy.run"},
+                      "stack %s: implementation %s, model %s" % (json.dumps(c["algos"]), i, m))
+    for c, i, exp in ofail[:2]:
+        run.violation({"suite": "stack_truth_tables", "case": c, "impl": i, "property": exp},
+                      "stack %s: implementation %s, property requires %s" % (json.dumps(c["algos"]), i, exp))
+    # the flow-control algos inside whole backtests (Require, Or, Not, RunIfOutOfBounds, temp reset per run)
+    n = sizes(tier, 150, 2500)
+    bst = backtest_suite(run, scratch, seed, n)
+    run.add_suite("backtest_runs", bst)
+
+
+PROPS["C13"] = {"props_file": "C13.v", "run": run_c13}
